@@ -51,7 +51,9 @@ OPS = [(0, 0, b"k", b"v", 0, False, None), (0, 0, b"k", b"v", 0, True, None), (0
        (14, 0, False), (14, 0, True), (15,),
        # noreply left to the client's default_noreply (both settings occur in the configurations below)
        (0, 0, b"k", b"v", 0, None, None), (1, [(b"a", b"1"), (b"b", b"2")], 0, None, None), (9, b"k", None), (10, False, [b"a", b"b"], None),
-       (13, b"k", 5, None), (14, 0, None)]
+       (13, b"k", 5, None), (14, 0, None),
+       # raw_command reads up to a caller-chosen end token, however the reply is cut into recv() results
+       (16, b"version", b"\r\n"), (16, b"version", b".21\r\n"), (16, b"get k", b"END\r\n")]
 FOLLOW = [(3, b"k", b"dflt"), (9, b"j", False), (0, 0, b"j", b"z", 0, False, None), (11, b"n", 1, False)]
 PRE = [(0, 0, b"k", b"5", 0, False, None), (0, 0, b"n", b"10", 0, False, None), (0, 0, b"a", b"A", 0, False, None)]
 REPLY_FAULTS = ["error", "garbage", "truncate", "client_error", "line0_server_error", "line1_client_error"]
